@@ -161,6 +161,11 @@ def run(ctx):
                 o_['start'].insert(0, gen.fmt(pts[0] - 5 * st)); o_['end'].insert(0, gen.fmt(pts[0] - 2 * st)); o_['capa'].insert(0, 2.0); o_['price'].insert(0, 1.0)
         sp['opts']['solvers'] = solvers
     specs += ob
+    # units with a minimum load: the relaxed ("soft") problem has fractional flags tied to the dispatch by rows
+    pl = gen.gen_many_plants(ctx.seed, n // 2, dict(CFG, freqs=['h'], units=['h'], tzs=[None], T=(4, 8), p_unaligned_end=0.0, p_profile=0.0, p_coarse=0.0, p_periodic=0.0, p_window=0.0), 'c03pl_')
+    for sp in pl:
+        sp['opts']['solvers'] = [{'make_soft_problem': True}] + solvers
+    specs += pl
     specs = ctx.specs(specs)
     res = C.run_impl('optim', specs)
     # ---- split optimisation of portfolios with binary variables: the concatenated result against the direct sum of the interval problems
